@@ -208,4 +208,52 @@ theorem pickIn_none (ins : List (Option Nat)) (order : List Nat)
       · subst hp; exact hj a
       · exact ih h p hp a
 
+/-! ### two callers per method -/
+
+theorem firstSlot_some (outs : List Bool) (port n : Nat) (oorder : List Nat) (sl : Nat)
+    (h : firstSlot outs port n oorder = some sl) :
+    sl ∈ oorder ∧ sl % n = port ∧ outs[sl]? = some true := by
+  induction oorder with
+  | nil => simp [firstSlot] at h
+  | cons k rest ih =>
+    simp only [firstSlot] at h
+    split at h
+    · rename_i hc
+      simp only [Bool.and_eq_true, beq_iff_eq] at hc
+      simp only [Option.some.injEq] at h
+      subst h
+      exact ⟨by simp, hc.1, hc.2⟩
+    · have := ih h
+      exact ⟨by simp [this.1], this.2⟩
+
+theorem zStep_exec (s : ZState) (i : ZIn) :
+    ((zStep s i).2.wa.isSome = true → (zStep s i).2.wa = i.wa) ∧
+    ((zStep s i).2.wr.isSome = true → (zStep s i).2.wr = i.wr) ∧
+    ((zStep s i).2.rd.isSome = true → i.rd = true) := by
+  simp only [zStep]
+  refine ⟨?_, ?_, ?_⟩
+  · intro h; split at h
+    · rename_i hc; simp [hc]
+    · simp at h
+  · intro h; split at h
+    · rename_i hc; simp [hc]
+    · simp at h
+  · intro h; split at h
+    · assumption
+    · simp at h
+
+theorem ite_who {c : Prop} [Decidable c] {k m : Nat} (h : (if c then k else 0) = m) (hm : 0 < m) :
+    c ∧ k = m := by
+  split at h
+  · exact ⟨by assumption, h⟩
+  · omega
+
+theorem arb2_spec {α} (bFirst : Bool) (a b : Option α) :
+    ((arb2 bFirst a b).2 = 1 ∨ (arb2 bFirst a b).2 = 2) ∧
+    ((arb2 bFirst a b).2 = 1 → (arb2 bFirst a b).1 = a) ∧
+    ((arb2 bFirst a b).2 = 2 → (arb2 bFirst a b).1 = b) ∧
+    ((arb2 bFirst a b).1 = none ↔ (a = none ∧ b = none)) := by
+  unfold arb2
+  cases bFirst <;> cases a <;> cases b <;> simp
+
 end TxV.ReqRes
